@@ -176,6 +176,7 @@ def run_coop(seed, profile, backend, tid, hook=None):
             obs = snap("Init", None)
             steps[0].pop("res")
             reattr = rng.random() < 0.5
+            focus = None
             for i in range(setup_n + (1 if reattr else 0)):
                 op = d.draw(obs)
                 if i == setup_n:
@@ -185,6 +186,28 @@ def run_coop(seed, profile, backend, tid, hook=None):
                         wmap.setdefault(w_, []).append(l_)
                     op = (d.make(rng.choice(["MovePrefix", "RemovePrefix", "AddPrefix", "DeleteWe"]), wmap)
                           if wmap else None) or op
+                    # preferably the webentity of one END of an existing link: the link queries that follow
+                    # have to resolve that end again
+                    def owner_of(l_):
+                        best = None
+                        for w_, ps_ in wmap.items():
+                            for p_ in ps_:
+                                if l_.startswith(p_) and (best is None or len(p_) > len(best[1])):
+                                    best = (w_, p_)
+                        return best
+                    ends = [(s_, t_) for s_, t_, _ in obs["outs"] if owner_of(s_) and owner_of(t_)
+                            and owner_of(s_)[0] != owner_of(t_)[0]]
+                    if ends and rng.random() < 0.7:
+                        s_, t_ = rng.choice(ends)
+                        (wt_, pt_), (ws_, _) = owner_of(t_), owner_of(s_)
+                        r_ = rng.random()
+                        if r_ < 0.4:
+                            op = {"op": "MovePrefix", "p": pt_, "to": ws_, "frm": rng.choice([0, wt_])}
+                        elif r_ < 0.7:
+                            op = {"op": "RemovePrefix", "p": pt_, "id": rng.choice([0, wt_])}
+                        else:
+                            op = {"op": "DeleteWe", "id": wt_, "ps": list(wmap[wt_])}
+                        focus = ws_
                     d.note(op)
                 if op["op"] in ("Reopen", "Clear", "Paginate", "PagLinks"):
                     continue
@@ -201,6 +224,9 @@ def run_coop(seed, profile, backend, tid, hook=None):
                 del impl.WRITE_LOG[:]
             # the generator requests
             descr = []
+            if rng.random() < 0.35:
+                d.profile["crawlknown"] = 1      # writers that create nothing: only the setup shaped the webentities
+                d.last_pages = list(obs["pages"])
             for _ in range(ncrawl):
                 op = d.make("IndexBatchCrawl", {})
                 descr.append({"kind": "crawl", "data": [(s, list(tg)) for s, tg in op["data"]]})
@@ -214,6 +240,10 @@ def run_coop(seed, profile, backend, tid, hook=None):
             if wes and rng.random() < 0.35:
                 wid, ps = rng.choice(wes)
                 descr.append({"kind": rng.choice(["qoutlinks", "qinlinks", "qpagelinks"]), "id": wid, "ps": ps})
+            if focus is not None:
+                fw = [x for x in wes if x[0] == focus]
+                if fw:      # the webentity at the other end of the link whose target was just re-attributed
+                    descr.append({"kind": rng.choice(["qoutlinks", "qpagelinks", "qoutlinks"]), "id": fw[0][0], "ps": fw[0][1]})
             if rng.random() < 0.3:
                 descr.append({"kind": rng.choice(["qnet", "qnet", "qnetslow"]), "out": rng.random() < 0.5,
                               "auto": rng.random() < 0.5})
